@@ -909,6 +909,8 @@ func (e *Engine) handleOverflow(ctx context.Context, p peer.ID, overflow, wants 
 			if e.peerLedger.CancelWant(p, w.Cid) {
 				e.peerRequestQueue.Remove(w.Cid, p)
 			}
+			// the evicted want may have been restated by this very message: do not enqueue it
+			wants = slices.DeleteFunc(wants, func(en bsmsg.Entry) bool { return en.Cid == w.Cid })
 			removed = append(removed, i)
 			// Pop hoghest priority overflow.
 			firstOver := overflow[0]
@@ -941,6 +943,7 @@ func (e *Engine) handleOverflow(ctx context.Context, p peer.ID, overflow, wants 
 		if e.peerLedger.CancelWant(p, entCid) {
 			e.peerRequestQueue.Remove(entCid, p)
 		}
+		wants = slices.DeleteFunc(wants, func(en bsmsg.Entry) bool { return en.Cid == entCid })
 		e.peerLedger.Wants(p, overflowEnt.Entry)
 		wants = append(wants, overflowEnt)
 	}
